@@ -20,8 +20,8 @@ ID = "C20"
 HERE = os.path.dirname(os.path.dirname(os.path.abspath(__file__)))
 DRIVER = os.path.join(HERE, "strl", "build", "strl_driver")
 BOUNDS = ("trees of 2-3 tasks; a task is a Max over 1-3 Choose leaves, a single Choose, a WindowedChoose (alone or under a Max), a MalleableChoose or an Allocation (running task); tasks are combined by Objective, Min, LessThan (also nested, over Min, over an Allocation), Scale, "
-          "and a Max shared by two parents; 1-2 partitions of quantity 1-3, numRequired 1-2, durations 1-3, times 0-8, now in {0, one grid step}, discretisation 1-3 with starts on the grid, every subset of {critical-path, capacity-constraint-purge} passes")
-OUTSIDE = ("the dynamic / adaptive discretisation pass; trees with more than 3 tasks / 9 leaves; start times off the discretisation grid (the Python front-end only emits multiples of the discretisation); zero or negative utilities; "
+          "and a Max shared by two parents; 1-2 partitions of quantity 1-3, numRequired 1-2, durations 1-3, times 0-8, now in {0, one grid step}, discretisation 1-3 with starts on the grid, every subset of {critical-path, capacity-constraint-purge} passes; the dynamic discretisation pass (maxDiscretization 2, 3, 5 on the unit grid) on the shapes built from Max-over-Choose")
+OUTSIDE = ("the adaptive discretisation of the Python front-end; finerDiscretizationAtPrevSolution; trees with more than 3 tasks / 9 leaves; start times off the discretisation grid (the Python front-end only emits multiples of the discretisation); zero or negative utilities; "
            "WindowedChoose windows that begin before `now`; Min whose children are all Allocations; solver back-ends (Gurobi/CPLEX/OR-tools translation of the SolverModel is not compiled)")
 ASSUMPTIONS = ["a SolverModel variable without an explicit lower bound is >= 0 and one without an upper bound is unbounded above, as GurobiSolver::translateVariable and CPLEXSolver::translateVariable do (the solver back-ends themselves are not compiled)",
                "the C++ library is compiled unchanged with g++ -std=c++20 -fno-access-control against a sequential shim of tbb::{concurrent_hash_map, concurrent_vector, parallel_for, blocked_range, task_group}",
@@ -45,7 +45,7 @@ def setup():
 
 # ------------------------------------------------------------------------------------------ trees
 
-SHAPES = ["indep", "min", "lt", "scale", "shared", "lt_single", "lt_first_single", "lt_alloc", "lt_min", "lt_nested", "wchoose", "lt_wchoose", "mchoose", "alloc_cap"]
+SHAPES = ["wide", "indep", "min", "lt", "scale", "shared", "lt_single", "lt_first_single", "lt_alloc", "lt_min", "lt_nested", "wchoose", "lt_wchoose", "mchoose", "alloc_cap"]
 
 
 def instances(tier):
@@ -61,6 +61,13 @@ def instances(tier):
                             continue
                         out.append({"name": f"{shape}-p{''.join(map(str, parts))}-d{disc}-v{variant}-cp{passes[0]}purge{passes[1]}", "shape": shape, "parts": parts, "disc": disc,
                                     "variant": variant, "passes": list(passes)})
+    for shape in ("indep", "min", "lt", "lt_min", "lt_nested", "shared", "alloc_cap", "lt_alloc", "wide"):
+        for parts in part_sets:
+            for variant in (0, 1, 2):  # now = 0: with discretisation 1 the front-end emits no option before `now`
+                for dyn in (2, 3) if quick else (2, 3, 5):
+                    for passes in ((0, 0),) if quick else ((0, 0), (1, 1)):
+                        out.append({"name": f"{shape}-p{''.join(map(str, parts))}-d1-v{variant}-cp{passes[0]}purge{passes[1]}-dyn{dyn}", "shape": shape, "parts": parts, "disc": 1,
+                                    "variant": variant, "passes": list(passes), "dyn": dyn})
     return out
 
 
@@ -107,6 +114,11 @@ def make_tree(spec, fine=False):
         a = task("A", reqA, durA, [0, 1], 1)
         b = task("B", reqB, durB, [0, 2], 2)
         c = task("C", 1, durC, [1], 1)
+        edges += [(root, a), (root, b), (root, c)]
+    elif shape == "wide":
+        a = task("A", reqA, durA, [0, 1, 2, 3, 4, 5], 1)
+        b = task("B", reqB, durB, [0, 1, 2, 3, 4], 2)
+        c = task("C", totalq, 1, [2, 3], 1)
         edges += [(root, a), (root, b), (root, c)]
     elif shape == "min":
         mn = add("MIN", name="min1")
@@ -212,7 +224,7 @@ def make_tree(spec, fine=False):
     return P, nodes, edges, root, now, g
 
 
-def describe(P, nodes, edges, root, now, disc, passes):
+def describe(P, nodes, edges, root, now, disc, passes, dyn=0):
     lines = [f"PART {i} p{i} {q}" for i, q in P.items()]
     for i, n in nodes.items():
         k = n["kind"]
@@ -230,7 +242,7 @@ def describe(P, nodes, edges, root, now, disc, passes):
         else:
             lines.append(f"NODE {i} {k} {n['name']}")
     lines += [f"EDGE {p} {c}" for p, c in edges]
-    lines.append(f"RUN {root} {now} {disc} {passes[0]} {passes[1]}")
+    lines.append(f"RUN {root} {now} {disc} {passes[0]} {passes[1]}" + (f" 1 {dyn}" if dyn else ""))
     return lines
 
 
@@ -499,9 +511,9 @@ def zval(v):
 
 # ------------------------------------------------------------------------------------------ the check
 
-def compile_tree(drv, spec, passes=None, fine=False):
+def compile_tree(drv, spec, passes=None, fine=False, dyn=None):
     P, nodes, edges, root, now, g = make_tree(spec, fine=fine)
-    lines = describe(P, nodes, edges, root, now, g, passes if passes is not None else spec["passes"])
+    lines = describe(P, nodes, edges, root, now, g, passes if passes is not None else spec["passes"], dyn=spec.get("dyn", 0) if dyn is None else dyn)
     out = drv.send(lines, "ENDMODEL")
     return (P, nodes, edges, root, now, g), parse_model(out)
 
@@ -797,10 +809,15 @@ def check_instance(spec):
             res["unknown"] += 1
         else:
             res["sat"] += 2
-            if opt_m == "infeasible" or opt_r == "infeasible" or abs(opt_m - opt_r) > 1e-9:
+            if spec.get("dyn"):
+                # a coarser (dynamically chosen) grid may lose utility, never gain any
+                note("C20:coarser-grid-only-loses-utility")
+                if isinstance(opt_m, str) or isinstance(opt_r, str) or opt_m > opt_r + 1e-9:
+                    bad("C20:coarser-grid-only-loses-utility", dynamic=opt_m, reference=opt_r, dyn=spec["dyn"])
+            elif opt_m == "infeasible" or opt_r == "infeasible" or abs(opt_m - opt_r) > 1e-9:
                 bad("C20:optimum-equals-reference", model=opt_m, reference=opt_r)
             # the same tree without passes
-            if tuple(spec["passes"]) != (0, 0):
+            if tuple(spec["passes"]) != (0, 0) and not spec.get("dyn"):
                 note("C20:passes-preserve-optimum")
                 d2 = Driver()
                 try:
@@ -814,7 +831,7 @@ def check_instance(spec):
                 finally:
                     d2.close()
             # the same problem on the unit grid: the coarse grid may only lose utility
-            if spec["disc"] > 1 and tuple(spec["passes"]) == (0, 0):
+            if spec["disc"] > 1 and tuple(spec["passes"]) == (0, 0) and not spec.get("dyn"):
                 note("C20:coarser-grid-only-loses-utility")
                 d2 = Driver()
                 try:
@@ -833,7 +850,7 @@ def check_instance(spec):
         rs.set("timeout", 60000)
         rs.add(rc)
         # options pruned on one side only must be impossible on the other
-        for k in sorted(set(rkeys) - set(mkeys)):
+        for k in sorted(set(rkeys) - set(mkeys)) if not spec.get("dyn") else []:
             res["queries"] += 1
             if rs.check(rkeys[k]) != z3.unsat:
                 bad("C20:every-valid-outcome-is-a-model-solution", why="an option the reference can place does not exist (or has no utility) in the compiled model", option=f"{nodes[k[0]]['name']}@{k[1]}")
@@ -866,7 +883,7 @@ def check_instance(spec):
             # then some choice of utilities makes the optimum differ -- which is demonstrated on the re-weighted tree
             note("C20:every-valid-outcome-is-a-model-solution")
             msets = [frozenset(k for k, v in zip(ks, pat) if v) for pat in pm_]
-            for pat in sorted(set(pr_) - set(pm_)):
+            for pat in sorted(set(pr_) - set(pm_)) if not spec.get("dyn") else []:
                 X = frozenset(k for k, v in zip(ks, pat) if v)
                 if any(X <= Y for Y in msets):
                     continue
